@@ -1409,7 +1409,9 @@ def c16(ck):
 
     def uses(case):
         ops = case.split(" ", 4)[4]
-        return {"h": "1b5b41" in ops or "1b5b42" in ops, "a": ";b:09" in ops or ops.startswith("b:09") or "09" in ops,
+        flat = "".join(op[2:] for op in ops.split(";") if op.startswith("b:") and op[2:] != ".")
+        # conservative: any CSI opener may turn into Up / Down (also across op boundaries), any 0x09 byte may be a Tab
+        return {"h": "1b5b" in flat, "a": "09" in flat,
                 "c": True}  # help requests cannot be recognised syntactically here; equivalence is only claimed off history / autocomplete
 
     for fs in fsets:
@@ -1433,10 +1435,15 @@ def c16(ck):
                 u = uses(c)
                 if not has("h"):
                     k = 1
+                    prevb = b"aa"      # the two bytes received before the op (session start = ground state)
                     for op in c.split(" ", 4)[4].split(";"):
                         if op.startswith("b:"):
                             nb = len(op[2:]) // 2
-                            if op[2:] in ("1b5b41", "1b5b42") and k + 2 < len(st):
+                            # ESC [ A / ESC [ B is the Up / Down key only from the decoder's ground state: the byte before it must have
+                            # ended any CSI sequence (a final byte 0x40..0x7E that is not the `[` of an ESC [ opener)
+                            ground = 0x40 <= prevb[-1] <= 0x7E and not (prevb[-1] == 0x5B and prevb[-2] == 0x1B)
+                            prevb = (prevb + (bytes.fromhex(op[2:]) if op[2:] != "." else b""))[-2:]
+                            if op[2:] in ("1b5b41", "1b5b42") and k + 2 < len(st) and ground:
                                 s_ = st[k + 2]
                                 prev = st[k - 1]
                                 if s_["sink"] != "-" or (s_["text"], s_["cur"]) != (prev["text"], prev["cur"]):
